@@ -76,8 +76,11 @@ fn tok(entry: Entry, x: u32) -> String {
 
 /// Separators between words: ASCII and non-ASCII whitespace, so that the str
 /// and [u8] tokenizers must agree on what whitespace is.
-const SEPS: [&str; 12] = [
+const SEPS: [&str; 18] = [
     " ", "\n", " ", "\t", "\u{a0}", " ", "\u{2003}", "\u{85}", "\u{b}", "\u{3000}", "\r\n", "  ",
+    // not White_Space, but easily mistaken for it: zero width space / joiner /
+    // no-break space (BOM), soft hyphen, word joiner
+    "\u{200b}", "\u{feff}", "\u{ad}", "\u{2060}", "\u{200d}", "\u{1680}",
 ];
 /// Line contents may contain Unicode line separators that are not line breaks
 /// for this crate.
@@ -85,6 +88,10 @@ const LINE_EXTRA: [&str; 6] = ["", "", " x", "\u{2028}y", "\u{85}", "\u{b}z"];
 
 fn build_text(entry: Entry, xs: &[u32]) -> String {
     let mut s = String::new();
+    // some texts start with a byte order mark
+    if xs.first().map_or(false, |x| x % 4 == 1) {
+        s.push('\u{feff}');
+    }
     for (i, &x) in xs.iter().enumerate() {
         match entry {
             Entry::TextLines => {
